@@ -3,6 +3,7 @@ package s1034
 import (
 	"fmt"
 	"go/ast"
+	"go/token"
 	"go/types"
 
 	"honnef.co/go/tools/analysis/code"
@@ -87,6 +88,23 @@ func run(pass *analysis.Pass) (any, error) {
 			}
 			canSuggestFix = canSuggestFix && !hasUnrelatedAssertion
 		}
+		// inside the clauses the new variable has the case type; assignments to the
+		// switched variable (legal for the interface value) would no longer compile
+		ast.Inspect(stmt.Body, func(n ast.Node) bool {
+			switch n := n.(type) {
+			case *ast.AssignStmt:
+				for _, lhs := range n.Lhs {
+					if id, ok := lhs.(*ast.Ident); ok && pass.TypesInfo.ObjectOf(id) == x {
+						canSuggestFix = false
+					}
+				}
+			case *ast.UnaryExpr:
+				if id, ok := n.X.(*ast.Ident); ok && n.Op == token.AND && pass.TypesInfo.ObjectOf(id) == x {
+					canSuggestFix = false
+				}
+			}
+			return true
+		})
 		if len(allOffenders) != 0 {
 			var opts []report.Option
 			for _, offender := range allOffenders {
